@@ -1,4 +1,5 @@
 import MJ.Proofs.Path
+import MJ.Proofs.PathPlat
 /-!
 # C17 — the file-system loader never reads outside its base directory
 
@@ -13,9 +14,16 @@ Property theorems only (helper lemmas: `MJ/Proofs/Path.lean`, model: `MJ/Model/P
 * lexically (`normalize_stays_below`): normalising `.`/`..` away cannot leave the base;
 * on an abstract directory tree without symbolic links (`walk_stays_below`): whatever the result
   resolves to is the directory the base resolves to, or something beneath it.
+
+Further down: the loader over time (`loader_*`), the ties to the source, and — with the PLATFORM
+as a parameter (`MJ/Model/PathPlat.lean`: separator set, drive prefixes; Unix and Windows
+instances) — `checked_segments_are_pushed_components`: the arguments of `push` are exactly the
+pieces the filter looked at and the result's components (split on every separator of the
+platform) are the base's followed by those pieces.  Unix: unconditional.  Windows: for names
+without a drive-prefixed segment; `C17_windows_counterexample` shows what a segment `C:x` does.
 -/
 namespace MJ.C17
-open MJ.Path
+open MJ.Path MJ.PathPlat
 
 /-- a segment that can only name an entry of the directory it is looked up in: not empty, not `.`,
     not `..`, not hidden, no separator of either flavour -/
@@ -301,5 +309,295 @@ example : MJ.Gen.c17LoaderEntrySites ≠ [] := by decide
 theorem get_template_passes_name (name parent : Str) : joinTemplatePath none name parent = name := rfl
 
 example : joinTemplatePath (some fun n par => par ++ n) "x".toList "d/".toList = "d/x".toList := by decide
+
+/-! ### the platform as a parameter: the components pushed are exactly the segments checked -/
+
+/-- every separator character of the platform is either the character the name is split on or a
+    character the filter rejects (rules regenerated from the source) -/
+def SepsCovered (pl : Plat) : Prop :=
+  ∀ c, pl.isSep c = true → c = MJ.Gen.c17SafeJoinSep ∨ c ∈ MJ.Gen.c17RejectContains
+
+theorem unix_seps_covered : SepsCovered unix := by
+  intro c h
+  have : c = '/' := by simpa [isSep_unix] using h
+  subst this; decide
+
+theorem windows_seps_covered : SepsCovered windows := by
+  intro c h
+  have : c = '\\' ∨ c = '/' := by simpa [Plat.isSep, windows] using h
+  rcases this with rfl | rfl <;> decide
+
+/-- on a platform whose separators are covered, a piece of the split that passes the filter
+    contains no separator at all -/
+theorem noSep_of_good (pl : Plat) (hcov : SepsCovered pl) (name s : Str)
+    (hs : s ∈ splitOn MJ.Gen.c17SafeJoinSep name) (hg : badSeg s = false) : NoSep pl s := by
+  intro c hc
+  cases hsep : pl.isSep c with
+  | false => rfl
+  | true =>
+    exfalso
+    rcases hcov c hsep with rfl | hm
+    · exact sep_not_mem_of_mem_splitOn _ name s hs hc
+    · have : badSeg s = true := by
+        simp only [badSeg, Bool.or_eq_true, List.any_eq_true]
+        exact Or.inl (Or.inr ⟨c, hm, by simpa using hc⟩)
+      rw [this] at hg; exact absurd hg (by decide)
+
+/-- a name in the strict sense on the platform `pl`: not empty, not `.`, not `..`, not hidden, free
+    of every separator of the platform, no drive prefix -/
+def PlainNameP (pl : Plat) (s : Str) : Prop :=
+  s ≠ [] ∧ s ≠ ['.'] ∧ s ≠ dotdot ∧ s.head? ≠ some '.' ∧ NoSep pl s ∧ driveLen pl s = 0
+
+/-- **What is pushed is what was checked**, on every platform.  Whenever `safe_join` answers a path:
+    * the filter looked at every piece of `name.split('/')`, in order, and passed each
+      (`tr.checked`);
+    * the arguments handed to `PathBuf::push` are exactly those pieces (`tr.pushed = tr.checked`);
+    * the components of the result — the result split on EVERY separator of the platform, so a
+      separator hidden inside a pushed argument would show up as extra components — are the
+      base's components followed by the non-empty checked pieces, one component each;
+    * each of them is a plain name on the platform; the drive prefix, the root and the literal
+      text of the base are kept (no push replaced the base).
+    Hypotheses: the platform's separators are the split character or rejected by the filter
+    (`SepsCovered`, proved for Unix and Windows from the regenerated rules), and no piece has a
+    drive prefix (vacuous on Unix; on Windows this is NOT established by the filter, see
+    `windows_drive_segment_replaces_base`). -/
+theorem checked_segments_are_pushed_components (pl : Plat) (hwf : pl.WF) (hcov : SepsCovered pl)
+    (base name p : Str) (tr : Trace) (h : safeJoinTr pl base name = some (p, tr))
+    (hdrive : ∀ s ∈ splitOn '/' name, driveLen pl s = 0) :
+    tr.checked = splitOn '/' name ∧ tr.pushed = tr.checked ∧
+    compsP pl p = compsP pl base ++ nameSegs name ∧
+    (∀ s ∈ nameSegs name, PlainNameP pl s) ∧
+    driveLen pl p = driveLen pl base ∧ hasRoot pl p = hasRoot pl base ∧ base <+: p := by
+  unfold safeJoinTr at h
+  have hplain : ∀ s ∈ splitOn MJ.Gen.c17SafeJoinSep name, badSeg s = false → PlainArg pl s ∧ s ≠ ['.'] :=
+    fun s hs hg => ⟨⟨noSep_of_good pl hcov name s hs hg, hdrive s (by rw [← sep_eq]; exact hs)⟩, not_dot_of_good hg⟩
+  obtain ⟨h1, h2, h3, h4, h5, h6, h7⟩ := joinLoopG_same pl hwf badSeg base _ _ hplain p tr h
+  simp only [List.nil_append] at h2 h3
+  rw [sep_eq] at h1 h2 h3 h4 hplain
+  refine ⟨h2, by rw [h3, h2], h4, ?_, h5, h6, h7⟩
+  intro s hs
+  simp only [nameSegs, List.mem_filter, bne_iff_ne, ne_eq] at hs
+  obtain ⟨hm, hne⟩ := hs
+  have hg := h1 s hm
+  exact ⟨hne, not_dot_of_good hg, not_dotdot_of_good hg, (badSeg_false_imp s hg).1,
+    (hplain s hm hg).1.1, (hplain s hm hg).1.2⟩
+
+/-- a base with a drive and a root, a name with an empty and a dotted piece -/
+example : safeJoinTr windows "C:\\srv\\t".toList "a//b.txt".toList
+    = some ("C:\\srv\\t\\a\\b.txt".toList,
+        ⟨["a".toList, [], "b.txt".toList], ["a".toList, [], "b.txt".toList]⟩) := by decide
+example : compsP windows "C:\\srv\\t\\a\\b.txt".toList = ["srv".toList, "t".toList, "a".toList, "b.txt".toList] := by decide
+/-- separators inside a pushed argument create several components on the platform … -/
+example : compsP windows (pushP windows "t".toList "x\\..\\..\\y".toList)
+    = ["t".toList, "x".toList, dotdot, dotdot, "y".toList] := by decide
+/-- … and none on a platform where the character is not a separator -/
+example : compsP unix (pushP unix "t".toList "x\\..\\..\\y".toList) = ["t".toList, "x\\..\\..\\y".toList] := by decide
+/-- a bare drive gets no separator; a rooted argument keeps only the drive; an argument with a
+    drive replaces everything -/
+example : pushP windows "C:".toList "x".toList = "C:x".toList := by decide
+example : pushP windows "C:\\a".toList "\\w".toList = "C:\\w".toList := by decide
+example : pushP windows "C:\\a".toList "D:w".toList = "D:w".toList := by decide
+
+/-- the seeded change C17-5 as an instance of the generic loop (filter without the backslash
+    rule, the `\`-pieces of a checked segment pushed one by one): on Windows — and on Unix, where
+    `push` of `..` simply appends it — the components are NOT the checked segments -/
+example : (joinLoopG unix (fun s => s.head? == some '.') (splitOn '\\') "t".toList ⟨[], []⟩
+      (splitOn '/' "a\\..\\..\\x".toList)).map (fun r => (compsP unix r.1, r.2.checked))
+    = some (["t".toList, "a".toList, dotdot, dotdot, "x".toList], ["a\\..\\..\\x".toList]) := by decide
+
+/-- Unix: no hypothesis is left -/
+theorem unix_checked_are_pushed (base name p : Str) (tr : Trace)
+    (h : safeJoinTr unix base name = some (p, tr)) :
+    tr.checked = splitOn '/' name ∧ tr.pushed = tr.checked ∧
+    compsP unix p = compsP unix base ++ nameSegs name ∧ (∀ s ∈ nameSegs name, PlainNameP unix s) ∧
+    driveLen unix p = driveLen unix base ∧ hasRoot unix p = hasRoot unix base ∧ base <+: p :=
+  checked_segments_are_pushed_components unix unix_wf unix_seps_covered base name p tr h
+    (fun s _ => driveLen_nodrives unix rfl s)
+
+example : safeJoinTr unix "/srv/t".toList "a//b.txt".toList
+    = some ("/srv/t/a/b.txt".toList, ⟨["a".toList, [], "b.txt".toList], ["a".toList, [], "b.txt".toList]⟩) := by decide
+
+/-- the Unix instance of the generic model IS the model that is compared with the real code byte
+    for byte (`safeJoin`, `push`, `comps`) -/
+theorem unix_instance_is_checked_model (base name p seg : Str) :
+    safeJoinP unix base name = safeJoin base name ∧ pushP unix p seg = push p seg ∧
+    compsP unix p = comps p :=
+  ⟨by simp only [safeJoinP, safeJoinTr, safeJoin]; exact joinLoopG_unix _ _ _, pushP_unix p seg, compsP_unix p⟩
+
+example : safeJoinP unix "/srv/t".toList "a//b.txt".toList = some "/srv/t/a/b.txt".toList := by decide
+
+/-- Windows: what is pushed is what was checked as long as no piece of the name starts with a
+    drive (`X:`) -/
+theorem windows_checked_are_pushed (base name p : Str) (tr : Trace)
+    (h : safeJoinTr windows base name = some (p, tr))
+    (hdrive : ∀ s ∈ splitOn '/' name, startsWithDrive s = false) :
+    tr.checked = splitOn '/' name ∧ tr.pushed = tr.checked ∧
+    compsP windows p = compsP windows base ++ nameSegs name ∧ (∀ s ∈ nameSegs name, PlainNameP windows s) ∧
+    driveLen windows p = driveLen windows base ∧ hasRoot windows p = hasRoot windows base ∧ base <+: p :=
+  checked_segments_are_pushed_components windows windows_wf windows_seps_covered base name p tr h
+    (fun s hs => by simp [driveLen, hdrive s hs])
+
+example : ∀ s ∈ splitOn '/' "a//b.txt".toList, startsWithDrive s = false := by decide
+
+/-- confinement of a joined path on the platform `pl` -/
+def ConfinedP (pl : Plat) (base name p : Str) : Prop :=
+  driveLen pl p = driveLen pl base ∧ hasRoot pl p = hasRoot pl base ∧ base <+: p ∧
+  compsP pl p = compsP pl base ++ nameSegs name ∧ (∀ s ∈ nameSegs name, PlainNameP pl s) ∧
+  normalize (hasRoot pl p) (compsP pl p) = normalize (hasRoot pl base) (compsP pl base) ++ nameSegs name ∧
+  ∀ (fs : FS) (start e : fs.Node), walk fs start (compsP pl p) = some e →
+    ∃ b, walk fs start (compsP pl base) = some b ∧ Below fs b e
+
+/-- the full statement on a platform: whatever `safe_join` answers is confined -/
+def C17_full_on (pl : Plat) : Prop := ∀ base name p, safeJoinP pl base name = some p → ConfinedP pl base name p
+
+/-- … with the excluded region as a decidable hypothesis -/
+def C17_partial_on (pl : Plat) : Prop :=
+  ∀ base name p, (∀ s ∈ splitOn '/' name, driveLen pl s = 0) → safeJoinP pl base name = some p → ConfinedP pl base name p
+
+theorem confined_on (pl : Plat) (hwf : pl.WF) (hcov : SepsCovered pl) : C17_partial_on pl := by
+  intro base name p hdrive h
+  unfold safeJoinP at h
+  cases ht : safeJoinTr pl base name with
+  | none => simp [ht] at h
+  | some r =>
+    obtain ⟨q, tr⟩ := r
+    simp only [ht, Option.map_some, Option.some.injEq] at h
+    subst h
+    obtain ⟨_, _, h3, h4, h5, h6, h7⟩ :=
+      checked_segments_are_pushed_components pl hwf hcov base name q tr ht hdrive
+    have hpl : ∀ s ∈ nameSegs name, plain s := fun s hs => ⟨(h4 s hs).1, (h4 s hs).2.1, (h4 s hs).2.2.1⟩
+    refine ⟨h5, h6, h7, h3, h4, ?_, ?_⟩
+    · rw [h3, h6, normalize_append]
+      exact normalizeFrom_plain _ _ _ hpl
+    · intro fs start e hw
+      rw [h3, walk_append] at hw
+      cases hb : walk fs start (compsP pl base) with
+      | none => simp [hb] at hw
+      | some b =>
+        refine ⟨b, rfl, ?_⟩
+        simp only [hb, Option.bind_some] at hw
+        exact walk_plain_below fs b e _ hpl hw
+
+/-- Unix: the full statement -/
+theorem safe_join_confined_unix : C17_full_on unix :=
+  fun base name p h => confined_on unix unix_wf unix_seps_covered base name p
+    (fun s _ => driveLen_nodrives unix rfl s) h
+
+example : ConfinedP unix "../t/".toList "x//y.html".toList "../t/x/y.html".toList :=
+  safe_join_confined_unix _ _ _ (by decide)
+
+/-- Windows: confined as long as no piece of the name starts with a drive -/
+theorem safe_join_confined_windows_partial : C17_partial_on windows :=
+  confined_on windows windows_wf windows_seps_covered
+
+example : ConfinedP windows "C:\\srv\\t".toList "a//b.txt".toList "C:\\srv\\t\\a\\b.txt".toList :=
+  safe_join_confined_windows_partial _ _ _ (by decide) (by decide)
+
+/-- **Windows: the filter lets a drive prefix through, and `push` of an argument with a prefix
+    replaces the base.**  `safe_join("templates", "C:secret.txt")` is `C:secret.txt` (the file
+    `secret.txt` in the current directory of drive `C:`), `safe_join("C:\\srv\\t", "D:x/y")` is
+    `D:x\\y`: the base is gone.  (Model of std's Windows `_push`/`parse_drive`; cannot be run
+    against the real code on this platform.) -/
+theorem windows_drive_segment_replaces_base :
+    safeJoinP windows "templates".toList "C:secret.txt".toList = some "C:secret.txt".toList ∧
+    compsP windows "C:secret.txt".toList = ["secret.txt".toList] ∧
+    safeJoinP windows "C:\\srv\\t".toList "D:x/y".toList = some "D:x\\y".toList ∧
+    (safeJoinTr windows "templates".toList "C:secret.txt".toList).map (·.2.pushed) = some ["C:secret.txt".toList] := by
+  decide
+
+/-- hence the full statement is false on Windows for the code as it is -/
+theorem C17_windows_counterexample : ¬ C17_full_on windows := by
+  intro h
+  have := (h "templates".toList "C:secret.txt".toList "C:secret.txt".toList (by decide)).2.2.1
+  revert this
+  decide
+
+/-! ### fallbacks done through `safe_join` stay confined -/
+
+/-- any loader that tries candidate NAMES (the name, the name with a suffix, …) and sends each
+    through `safe_join` returns only content found at a path confined to the base — the shape a
+    `.j2`/index/alias fallback must have (the seeded changes C17-2 and C17-4 built their candidate
+    PATHS from the joined path's ancestors / from the unfiltered name instead) -/
+theorem candidate_loader_found_confined (l : LoaderG) (fs : Snapshot) (name s : Str)
+    (h : l.load fs name = .found s) :
+    ∃ t ∈ l.cands, ∃ p, safeJoin l.base (t name) = some p ∧ fs p = .content s ∧ Confined l.base (t name) p := by
+  obtain ⟨t, ht, p, hp, hf⟩ := loadCands_found h
+  exact ⟨t, ht, p, hp, hf, (safe_join_confined l.base (t name)).2 p hp⟩
+
+example : (LoaderG.mk "b".toList [id, fun n => n ++ ".j2".toList]).load
+      (oneFile "b/x.j2".toList "inside".toList) "x".toList = .found "inside".toList := by decide
+
+/-- every path such a loader may hand to the file system is confined -/
+theorem candidate_loader_reads_confined (l : LoaderG) (name p : Str) (h : p ∈ l.reads name) :
+    ∃ t ∈ l.cands, Confined l.base (t name) p := by
+  simp only [LoaderG.reads, List.mem_filterMap] at h
+  obtain ⟨t, ht, hp⟩ := h
+  exact ⟨t, ht, (safe_join_confined l.base (t name)).2 p hp⟩
+
+example : (LoaderG.mk "b".toList [id, fun n => n ++ ".j2".toList]).reads "a/x".toList
+    = ["b/a/x".toList, "b/a/x.j2".toList] := by decide
+example : (LoaderG.mk "b".toList [id, fun n => n ++ ".j2".toList]).reads "../x".toList = [] := by decide
+
+/-- `path_loader` is the instance with the single candidate "the name itself" -/
+theorem path_loader_is_single_candidate (fs0 fs : Snapshot) (dir name : Str) :
+    (LoaderG.mk dir [id]).load fs name = (pathLoader fs0 dir).load fs name ∧
+    (LoaderG.mk dir [id]).reads name = (pathLoader fs0 dir).reads name := by
+  constructor
+  · simp only [LoaderG.load, loadCands, id, Loader.load, pathLoader]
+    cases safeJoin dir name with
+    | none => rfl
+    | some p => cases fs p <;> rfl
+  · simp only [LoaderG.reads, Loader.reads, pathLoader, List.filterMap_cons, List.filterMap_nil, id]
+    cases safeJoin dir name <;> rfl
+
+/-- a `.j2` fallback done right: the canary next to the base is not served, the file beneath is -/
+example : (LoaderG.mk "b".toList [id, fun n => n ++ ".j2".toList]).load
+      (oneFile "b/x.j2".toList "inside".toList) "x".toList = .found "inside".toList := by decide
+example : (LoaderG.mk "b".toList [id, fun n => n ++ ".j2".toList]).load
+      (oneFile "/etc/x.j2".toList "canary".toList) "/etc/x".toList = .missing := by decide
+
+/-! ### the shape of `safe_join`'s loop (table regenerated by `lib/tables/c17.py`) -/
+
+/-- spellings of "an owned copy of the base" -/
+def loopInits : List (List String) :=
+  [["letmutrv=base.to_path_buf()"], ["letmutrv=PathBuf::from(base)"], ["letmutrv=base.to_owned()"],
+   ["letmutrv=base.into()"]]
+
+/-- spellings of "push the loop variable" -/
+def loopPushes (var : String) : List (List String) :=
+  [["rv.push(" ++ var ++ ")"], ["rv=rv.join(" ++ var ++ ")"], ["rv.push(Path::new(" ++ var ++ "))"]]
+
+/-- `safe_join` in the source has the shape `joinLoopG … badSeg useSame` models: `rv` starts as a
+    copy of the base; ONE split of the template name (on the extracted separator) is iterated; the
+    filter's atoms all look at the loop variable; after the filter the loop body is ONE statement
+    that pushes the loop variable itself — the same variable the filter looked at, mentioned once;
+    the name and the base are mentioned nowhere else; the result is `Some(rv)`.  (The rules
+    extractor already insists on one `split`, one `if`, one `return None`.) -/
+theorem safe_join_loop_shape :
+    MJ.Gen.c17LoopInit ∈ loopInits ∧
+    MJ.Gen.c17LoopIter = "template.split('" ++ String.singleton MJ.Gen.c17SafeJoinSep ++ "')" ∧
+    MJ.Gen.c17LoopFilterSubjects = [MJ.Gen.c17LoopVar] ∧
+    MJ.Gen.c17LoopAfterFilter ∈ loopPushes MJ.Gen.c17LoopVar ∧
+    MJ.Gen.c17LoopVarUsesAfterFilter = 1 ∧
+    MJ.Gen.c17LoopTail = "Some(rv)" ∧
+    MJ.Gen.c17SafeJoinTemplateUses = 1 ∧ MJ.Gen.c17SafeJoinBaseUses = 1 := by decide
+
+example : MJ.Gen.c17LoopVar ≠ "" ∧ MJ.Gen.c17LoopAfterFilter ≠ [] := by decide
+
+/-- the functions of the engine, of minijinja-contrib and of minijinja-autoreload that mention the
+    file system or build a path (tests, verification hooks and the build-time embed crate aside):
+    `safe_join` and `path_loader` (modelled above) and the autoreloader's `watch_path` /
+    `unwatch_path`, which hand a path given by the HOST to the change notifier and never read a
+    file or see a template name.  A new fallback, canonicalisation or loader shows up here. -/
+def modelledPathProducers : List (String × String) :=
+  [("minijinja/loader.rs", "safe_join"), ("minijinja/loader.rs", "path_loader"),
+   ("minijinja-autoreload/lib.rs", "watch_path"), ("minijinja-autoreload/lib.rs", "unwatch_path")]
+
+theorem path_producers_as_modelled :
+    (∀ s ∈ MJ.Gen.c17PathProducers, s ∈ modelledPathProducers) ∧
+    ("minijinja/loader.rs", "safe_join") ∈ MJ.Gen.c17PathProducers ∧
+    ("minijinja/loader.rs", "path_loader") ∈ MJ.Gen.c17PathProducers := by decide
+
+example : MJ.Gen.c17PathProducers.length ≥ 2 := by decide
 
 end MJ.C17
